@@ -110,33 +110,28 @@ structure AStore where
 
 inductive Err where
   | multipleRoot     -- MultipleRootNodeException
-  | styleNone        -- AttributeError: a value-less `style` attribute reaches `styleToDict(None)`
   | noRoot           -- ValueError of getHTML when nothing was parsed
   deriving DecidableEq, Repr
 
 /-- One `myAttributes[key] = value` of `AdvancedTag.__init__` (`SpecialAttributesDict.__setitem__`). -/
-def AStore.set (a : AStore) (key0 : Str) (value : Option Str) : Except Err AStore :=
+def AStore.set (a : AStore) (key0 : Str) (value : Option Str) : AStore :=
   let key := lower key0
-  if !validAttrName key then .ok a
+  if !validAttrName key then a
   else if key = str "style" then
-    match value with
-    | none => .error .styleNone
-    | some v =>
-      -- StyleAttribute(value, tag), copied once more by `tag.style = …` through its string form
-      let sd := styleToDict (styleStr (styleToDict v))
-      let d1 := if sd.isEmpty then dictDel a.dict key else dictSet a.dict key (some [])
-      .ok { a with dict := dictSet d1 key (some v), style := sd }
+    -- StyleAttribute(value, tag) (a value-less `style` is the empty style), copied once more by
+    -- `tag.style = …` through its string form
+    let sd := styleToDict (styleStr (styleToDict (value.getD [])))
+    let d1 := if sd.isEmpty then dictDel a.dict key else dictSet a.dict key (some [])
+    { a with dict := dictSet d1 key value, style := sd }
   else if key = str "class" then
-    .ok { a with classes := classNames (value.getD (str "None")) }
+    { a with classes := classNames (value.getD (str "None")) }
   else if binaryStringAttrs.contains key then
-    .ok { a with dict := dictSet a.dict key (some (boolString value)) }
-  else .ok { a with dict := dictSet a.dict key value }
+    { a with dict := dictSet a.dict key (some (boolString value)) }
+  else { a with dict := dictSet a.dict key value }
 
-def mkStore : List (Str × Option Str) → AStore → Except Err AStore
-  | [], a => .ok a
-  | (k, v) :: r, a => match a.set k v with
-    | .ok a' => mkStore r a'
-    | .error e => .error e
+def mkStore : List (Str × Option Str) → AStore → AStore
+  | [], a => a
+  | (k, v) :: r, a => mkStore r (a.set k v)
 
 /-- `_attributes.items()` after `_handleClassAttr`. -/
 def AStore.items (a : AStore) : List (Str × Option Str) :=
@@ -163,8 +158,11 @@ inductive Kind where
   | slim (ssc : Bool)
   deriving DecidableEq, Repr, Inhabited
 
+/-- `verb` is a ghost flag (the code's blocks are plain `str` either way): `true` for the blocks written by
+    `handle_entityref/charref/comment`, `false` for `handle_data` blocks.  No function of the model reads it;
+    the theorems use it to say which blocks must survive verbatim. -/
 inductive Node where
-  | text (s : Str)
+  | text (verb : Bool) (s : Str)
   | elem (kind : Kind) (name : Str) (st : AStore) (sc : Bool) (indent : Str) (kids : List Node)
   deriving Repr, Inhabited
 
@@ -189,7 +187,7 @@ def startTag (kind : Kind) (name : Str) (st : AStore) (sc : Bool) (indent : Str)
 def lastTextEndsWith (ind : Str) (kids : List Node) : Bool :=
   match kids.getLast? with
   | none => endsWith ind []
-  | some (.text s) => endsWith ind s
+  | some (.text _ s) => endsWith ind s
   | some (.elem ..) => false
 
 /-- `AdvancedTag.getEndTag`. -/
@@ -202,7 +200,7 @@ def endTag (name : Str) (sc : Bool) (indent : Str) (kids : List Node) : Str :=
 mutual
 /-- `outerHTML` (a text block is itself). -/
 def outer : Node → Str
-  | .text s => s
+  | .text _ s => s
   | .elem k n st sc ind kids => startTag k n st sc ind ++ (if sc then [] else innerL kids) ++ endTag n sc ind kids
 /-- `innerHTML` of a block list. -/
 def innerL : List Node → Str
@@ -277,7 +275,7 @@ def docHTML (doctype : Option Str) (root : Option Node) : Except Err Str :=
       | none => []
     match r with
     | .elem _ n _ sc _ kids => if n = wrapper then .ok (dt ++ (if sc then [] else innerL kids)) else .ok (dt ++ outer r)
-    | .text s => .ok (dt ++ s)
+    | .text _ s => .ok (dt ++ s)
 
 /-! ### the formatter -/
 
@@ -295,11 +293,9 @@ def getIndent (cfg : Cfg) (level : Int) : Str :=
 def handleStart (cfg : Cfg) (s : St) (name0 : Str) (attrs : List (Str × Option Str)) (sc0 : Bool) : Except Err St :=
   let name := lower name0
   let sc := sc0 || isVoid name
-  match mkStore attrs {} with
-  | .error e => .error e
-  | .ok st =>
-    if !s.noRoot && s.stack.isEmpty then .error .multipleRoot
-    else
+  let st := mkStore attrs {}
+  if !s.noRoot && s.stack.isEmpty then .error .multipleRoot
+  else
       let indent := if s.inPre = 0 then getIndent cfg s.level else []
       if sc then
         let p := attach (.elem .normal name st true indent []) s.stack s.closed
@@ -313,11 +309,9 @@ def handleStart (cfg : Cfg) (s : St) (name0 : Str) (attrs : List (Str × Option 
 def handleStartSlim (cfg : Cfg) (ssc : Bool) (s : St) (name0 : Str) (attrs : List (Str × Option Str)) (sc0 : Bool) : Except Err St :=
   let name := lower name0
   let sc := sc0 || isVoid name
-  match mkStore attrs {} with
-  | .error e => .error e
-  | .ok st =>
-    if !s.noRoot && s.stack.isEmpty then .error .multipleRoot
-    else
+  let st := mkStore attrs {}
+  if !s.noRoot && s.stack.isEmpty then .error .multipleRoot
+  else
       let indent := if s.inPre = 0 then getIndent cfg s.level else []
       if sc then
         let p := attach (.elem (.slim ssc) name st true indent []) s.stack s.closed
@@ -362,9 +356,9 @@ def handleEnd (s : St) (name : Str) : St :=
                level := if name ≠ wrapper then s.level - 1 else s.level,
                inPre := if isPre name then s.inPre - 1 else s.inPre }
 
-def appendText (s : St) (t : Str) : St :=
+def appendText (s : St) (verb : Bool) (t : Str) : St :=
   match s.stack with
-  | f :: r => { s with stack := { f with rev := .text t :: f.rev } :: r }
+  | f :: r => { s with stack := { f with rev := .text verb t :: f.rev } :: r }
   | [] => s
 
 /-- `handle_data` -/
@@ -373,12 +367,12 @@ def handleData (s : St) (d : Str) : Except Err St :=
   else match s.stack with
     | f :: _ =>
       let d' := if s.inPre = 0 && !isPreserve f.name then squeeze d else d
-      .ok (appendText s d')
+      .ok (appendText s false d')
     | [] => if (pyStrip d).isEmpty then .ok s else .error .multipleRoot
 
 /-- `handle_entityref`, `handle_charref`, `handle_comment` -/
 def handleVerbatim (s : St) (t : Str) : Except Err St :=
-  if s.stack.isEmpty then .error .multipleRoot else .ok (appendText s t)
+  if s.stack.isEmpty then .error .multipleRoot else .ok (appendText s true t)
 
 def step (cfg : Cfg) (s : St) : Tok → Except Err St
   | .start n a => startHandler cfg s n a false
@@ -432,14 +426,12 @@ namespace Plain
 def handleStart (s : St) (name0 : Str) (attrs : List (Str × Option Str)) (sc0 : Bool) : Except Err St :=
   let name := lower name0
   let sc := sc0 || isVoid name
-  match mkStore attrs {} with
-  | .error e => .error e
-  | .ok st =>
-    if !s.noRoot && s.stack.isEmpty then .error .multipleRoot
-    else if sc then
-      let p := attach (.elem .normal name st true [] []) s.stack s.closed
-      .ok { s with stack := p.1, closed := p.2 }
-    else .ok { s with stack := ⟨.normal, name, st, [], []⟩ :: s.stack }
+  let st := mkStore attrs {}
+  if !s.noRoot && s.stack.isEmpty then .error .multipleRoot
+  else if sc then
+    let p := attach (.elem .normal name st true [] []) s.stack s.closed
+    .ok { s with stack := p.1, closed := p.2 }
+  else .ok { s with stack := ⟨.normal, name, st, [], []⟩ :: s.stack }
 
 def pop (s : St) : St :=
   match s.stack with
@@ -460,7 +452,7 @@ def handleEnd (s : St) (name : Str) : St :=
 def handleData (s : St) (d : Str) : Except Err St :=
   if d.isEmpty then .ok s
   else match s.stack with
-    | _ :: _ => .ok (appendText s d)
+    | _ :: _ => .ok (appendText s false d)
     | [] => if (pyStrip d).isEmpty then .ok s else .error .multipleRoot
 
 def step (s : St) : Tok → Except Err St
